@@ -19,6 +19,8 @@
 import Golib.Queue.Thms
 import Golib.Queue.Conc
 import Golib.Queue.Fair
+import Golib.Queue.Timed
+import Golib.Queue.Findings
 
 namespace C11
 open Queue
@@ -143,6 +145,107 @@ theorem timed_get (start timeout : Int) (ticks : List Tick) (t : Int)
 theorem timed_get_returns_what_it_polled (timeto : Int) (ticks : List Tick) (x : Nat)
     (h : timedGet timeto ticks = some (.got x)) : x ≠ 0 ∧ ∃ tk ∈ ticks, tk.polled = x :=
   timed_get_got timeto ticks x h
+
+/-! ### the timed get as the polling loop it is: polls of GetNoWait interleaved with the operations of
+    other threads, over an abstract clock (`timedGetQ`; `Round.others` = what other threads did to the
+    queue before this poll, `Round.now` = the clock read after the sleep that follows an empty-handed
+    poll) -/
+
+/-- **lower bound with the queue in the loop**: empty-handed only at a clock reading `t` with
+    `t − start ≥ timeout`, and then nothing was delivered -/
+theorem timed_get_polling_lower_bound (start timeout : Int) (q : Q) (rounds : List Round) (q' : Q)
+    (t : Int) (evs : List Ev)
+    (h : timedGetQ (start + timeout) q rounds = (q', some (.timedOut t), evs)) :
+    t - start ≥ timeout ∧ deliveredOf evs = [] :=
+  timedGetQ_lower_bound start timeout q rounds q' t evs h
+
+/-- **upper side: it returns an element if one arrives and the thread polls.**  After any prefix of
+    rounds in which every poll came back empty-handed before the deadline, if the queue — after what
+    the other threads did — has a non-nil head `x` at the next poll, the call returns `x`, removes
+    exactly `x`, and `delivered x` is its last event. -/
+theorem timed_get_returns_arrival (timeto : Int) (q : Q) (pre : List Round) (r : Round)
+    (post : List Round) (qm : Q) (e : List Ev) (x : Nat) (xs : List Nat)
+    (hpre : afterRounds timeto q pre = some (qm, e))
+    (hhead : (run qm r.others).1.items = x :: xs) (hx : x ≠ 0) :
+    timedGetQ timeto q (pre ++ r :: post) =
+      ({ (run qm r.others).1 with items := xs }, some (.got x), e ++ [.delivered x]) :=
+  timedGetQ_returns_arrival timeto q pre r post qm e x xs hpre hhead hx
+
+/-- the environment-level model characterised completely -/
+theorem timed_get_got_iff (timeto : Int) (ticks : List Tick) (x : Nat) :
+    timedGet timeto ticks = some (.got x) ↔
+      ∃ pre tk post, ticks = pre ++ tk :: post ∧ tk.polled = x ∧ x ≠ 0 ∧
+        ∀ p ∈ pre, p.polled = 0 ∧ timeto - p.now > 0 :=
+  timedGet_got_iff timeto ticks x
+
+theorem timed_get_timed_out_iff (timeto : Int) (ticks : List Tick) (t : Int) :
+    timedGet timeto ticks = some (.timedOut t) ↔
+      ∃ pre tk post, ticks = pre ++ tk :: post ∧ tk.polled = 0 ∧ tk.now = t ∧ timeto - t ≤ 0 ∧
+        ∀ p ∈ pre, p.polled = 0 ∧ timeto - p.now > 0 :=
+  timedGet_timedOut_iff timeto ticks t
+
+/-- the sequential operation `getTimeout k` *is* the polling loop with nobody else around and the
+    deadline passing at the (k+1)-th clock reading: this ties the model's `extraPolls` to the clock -/
+theorem timed_get_alone_is_the_sequential_op (timeto : Int) (q : Q) (pre : List Round) (r : Round)
+    (post : List Round)
+    (hpre : ∀ p ∈ pre, p.others = [] ∧ timeto - p.now > 0)
+    (hr : r.others = [] ∧ timeto - r.now ≤ 0) :
+    timedGetQ timeto q (pre ++ r :: post) =
+      ({ q with items := (getTimeoutLoop (pre.length + 1) q.items).1 },
+       some (resOf r.now (getTimeoutLoop (pre.length + 1) q.items).2.1),
+       (getTimeoutLoop (pre.length + 1) q.items).2.2) :=
+  timedGetQ_no_others timeto q pre r post hpre hr
+
+/-! ### the known findings, characterised completely -/
+
+/-- closed form of the timed get's loop: with `z` leading nil elements it swallows `min polls z` of
+    them and then returns the first non-nil element, if the polls reach it -/
+theorem nil_swallowing_closed_form (n : Nat) (items : List Nat) :
+    getTimeoutLoop n items =
+      if n ≤ (items.takeWhile (· = 0)).length then
+        (items.drop n, 0, List.replicate n (.swallowed 0))
+      else
+        match items.drop (items.takeWhile (· = 0)).length with
+        | [] => ([], 0, List.replicate (items.takeWhile (· = 0)).length (.swallowed 0))
+        | x :: r =>
+          (r, x, List.replicate (items.takeWhile (· = 0)).length (.swallowed 0) ++ [.delivered x]) :=
+  getTimeoutLoop_closed n items
+
+/-- **`RequestQueue.GetTimeout:nil-element-swallowed`, iff**: a timed get loses an element exactly
+    when the head of the queue is a nil element, and it loses exactly `min polls (leading nils)` -/
+theorem nil_element_swallowed_iff (q : Q) (k : Nat) :
+    (swallowedOf (step q (.getTimeout k)).2.2 ≠ [] ↔ q.items.head? = some 0) ∧
+    (swallowedOf (step q (.getTimeout k)).2.2).length = min (k + 1) (q.items.takeWhile (· = 0)).length :=
+  ⟨swallows_iff q k, swallowed_count q k⟩
+
+/-- the full conservation law of the property (no `swallowed` term) for every history in which no
+    nil element is put -/
+theorem conservation_without_nil_elements (q : Q) (ops : List Op) (hq : 0 ∉ q.items)
+    (hops : ∀ op ∈ ops, op ≠ .put 0 ∧ op ≠ .putForce 0) :
+    (q.items ++ acceptedOf (run q ops).2.2).Perm
+      (deliveredOf (run q ops).2.2 ++ overflowedOf (run q ops).2.2 ++ clearedOf (run q ops).2.2 ++
+        (run q ops).1.items) :=
+  conservation_no_nil q ops hq hops
+
+/-- **`RequestDoubleQueue.GetTimeout:nil-element-swallowed`, iff**: the timed get of the double queue
+    serves the second queue although the first is not empty exactly when the first queue holds only
+    nil elements and the polls that remain after swallowing them (and the leading nils of the second
+    queue) reach a non-nil element of the second queue -/
+theorem double_timed_get_serves_second_iff (d : DQ) (k : Nat) :
+    (d.q1.items ≠ [] ∧ ∃ x, (2, Ev.delivered x) ∈ (dstep d (.getTimeout k)).2.2) ↔
+      (d.q1.items ≠ [] ∧ (∀ y ∈ d.q1.items, y = 0) ∧
+        ∃ x, x ≠ 0 ∧ ∃ pre post, d.q2.items = pre ++ x :: post ∧ (∀ y ∈ pre, y = 0) ∧
+          d.q1.items.length + pre.length < k + 1) :=
+  double_second_while_first_nonempty_iff d k
+
+/-- … while Get / GetNoWait hand out an element of the second queue iff the first is empty and that
+    element is the head of the second -/
+theorem double_get_serves_second_iff (d : DQ) (op : DOp) (hop : op = .get ∨ op = .getNoWait) (x : Nat) :
+    (2, Ev.delivered x) ∈ (dstep d op).2.2 ↔ d.q1.items = [] ∧ d.q2.items.head? = some x :=
+  double_second_get_iff d op hop x
+
+example : (timedGetQ 100 ⟨[], 2⟩ [⟨[], 40⟩, ⟨[.put 7], 80⟩, ⟨[], 120⟩]).2.1 = some (.got 7) := by decide
+example : (timedGetQ 100 ⟨[], 2⟩ [⟨[], 40⟩, ⟨[.put 7, .get], 80⟩, ⟨[], 120⟩]).2.1 = some (.timedOut 120) := by decide
 
 /-! ### concurrent: the queue as a monitor object — any number of producers and consumers, any
     schedule, consumers that block before the first producer arrives included -/
